@@ -85,7 +85,13 @@ pub fn check_coordinates(rep: &mut Report, e: &JmespathError, source: &str, what
     ok
 }
 
-const CORES: [&str; 22] = [
+const CORES: [&str; 28] = [
+    "`[[1],[2]]`[::0].a",
+    "`[1,2,3]`[::0][0]",
+    "`[[1],[2]]`[1:2:0][?@]",
+    "`[1,2,3]`[::0].to_string(@)",
+    "`[[1,2]]`[*][::0].b.c",
+    "`{\"k\":[1,2]}`.k[0:1:0].x[0]",
     "nofn(@)",
     "nofn(`1`, 'x')",
     "length()",
